@@ -157,9 +157,16 @@ func init() {
 					nsid := 0
 					snapSid := []int{}
 					var steps []map[string]interface{}
+					desync := false
 					for _, st := range c.Steps {
 						w := pair[cur]
 						obs := map[string]interface{}{}
+						if desync {
+							// the real proxy has issued another number of credentials than the model: the replay indices of the rest of the
+							// behaviour would point at other credentials - stop here (the steps so far have been judged)
+							steps = append(steps, map[string]interface{}{"diverged": true})
+							break
+						}
 						b := vpS(st.Args, "b")
 						jar := jars[b]
 						switch st.A {
@@ -231,6 +238,10 @@ func init() {
 							obs["served"] = r.UpHits > 0
 							if r.UpLast != nil {
 								obs["user"] = userOf(r.UpLast.Header.Get("X-Forwarded-Email"))
+							}
+							obs["servedAsOther"] = r.UpHits > 0 && obs["user"] != vpS(st.Args, "user")
+							if vpB(st.Args, "live") && r.UpHits == 0 {
+								obs["stricter"] = true // (conformance note: the model would have honoured this credential)
 							}
 						case "age":
 							d := 2 * time.Hour
@@ -305,6 +316,10 @@ func init() {
 							}
 						}
 						obs["nstored"] = ns
+						obs["nsnaps"] = len(snaps)
+						if st.Impl != nil && vpI(st.Impl, "nsnaps") != len(snaps) {
+							desync = true
+						}
 						steps = append(steps, obs)
 						if obs["diverged"] == true {
 							break
